@@ -369,6 +369,15 @@ func (a Float) M__rdivmod__(other Object) (Object, Object, error) {
 	return NotImplemented, None, nil
 }
 
+// Raises a to the power b
+func floatPow(a, b Float) (Object, error) {
+	x, y := float64(a), float64(b)
+	if x == 0 && y < 0 && !math.IsInf(y, -1) {
+		return nil, ExceptionNewf(ZeroDivisionError, "0.0 cannot be raised to a negative power")
+	}
+	return Float(math.Pow(x, y)), nil
+}
+
 func (a Float) M__pow__(other, modulus Object) (Object, error) {
 	if modulus != None {
 		return NotImplemented, nil
@@ -376,7 +385,7 @@ func (a Float) M__pow__(other, modulus Object) (Object, error) {
 	if b, ok, err := floatOperand(other); err != nil {
 		return nil, err
 	} else if ok {
-		return Float(math.Pow(float64(a), float64(b))), nil
+		return floatPow(a, b)
 	}
 	return NotImplemented, nil
 }
@@ -385,7 +394,7 @@ func (a Float) M__rpow__(other Object) (Object, error) {
 	if b, ok, err := floatOperand(other); err != nil {
 		return nil, err
 	} else if ok {
-		return Float(math.Pow(float64(b), float64(a))), nil
+		return floatPow(b, a)
 	}
 	return NotImplemented, nil
 }
